@@ -174,7 +174,7 @@ def obligations(tier, sc):
     depth = 6 if thorough else 3
     obs.append(Obligation(
         name="B_mark_event_chan", harness="C17/emu_event.c", defines=["MAXDEPTH=%d" % depth], incdirs=UT, native_cflags=NATIVE,
-        unwind=20, extra=OBJ, timeout=900,
+        unwind=20, extra=OBJ, timeout=900 if not thorough else 2400,
         desc=dict(functions=["mark_event", "find_mark_type", "chan_push", "chan_pop", "chan_set", "chan_read", "set_dirty", "create_mark_type",
                              "create_thread_chan", "chan_init", "chan_prop_set"],
                   symbolic="emitting thread (2) x mark type 3 / 5 x stack depth 0..%d (case split, concrete pointers and indices); payload size: any, value: any int64, "
@@ -212,4 +212,17 @@ def obligations(tier, sc):
                       assumptions=[LIBC_ASSUME, VJ_ASSUME, UT_ASSUME, EMU_COMMON,
                                    "recorder bay and recorder prv_register / pcf_add_type / pcf_add_value / recorder_find_pvt (harness/C17/wiring.c)",
                                    "allocation never fails; objects come from typed zeroed pools"])))
+    # informational: int64 label values are narrowed to int on their way into the PCF (real pcf.c)
+    obs.append(Obligation(
+        name="C_info_label_int64", harness="C17/wiring.c", defines=["VARIANT=3"], incdirs=UT, native_cflags=NATIVE,
+        unwind=40, extra=OBJ, timeout=900, info_only=True,
+        desc=dict(functions=["mark_create", "mark_connect", "init_pcf", "create_type", "pcf_add_type", "pcf_add_value", "pcf_find_value"],
+                  symbolic="none: thread 0 defines type 3 'A' single with labels {1: 'one', 4294967297: 'big'} (what ovni_mark_label(3, 1, ..) and "
+                           "ovni_mark_label(3, 4294967297, ..) store)",
+                  bound="one concrete system; REAL src/emu/pv/pcf.c",
+                  out="informational query: its outcome never changes the exit status (DESIGN.md C17 lists the int narrowing as outside the statement)",
+                  oracle="mark_connect succeeds for labels on two distinct positive int64 values; the tree FAILS this: create_type() passes (int) l->value to "
+                         "pcf_add_value(), 4294967297 becomes 1 and collides with the label of 1 ('PCF value 1 already in type 103'), so ovniemu refuses the trace; "
+                         "a lone label on a value >= 2^31 is filed under the truncated number",
+                  assumptions=[LIBC_ASSUME, VJ_ASSUME, UT_ASSUME, EMU_COMMON, "recorder bay / prv_register; typed zeroed allocation pools"])))
     return obs
